@@ -1,5 +1,6 @@
 import PGA.Proofs.ThermoRange
 import PGA.Proofs.ThermoDefects
+import PGA.Gen.ThermoRanges
 /-!
 # C06 — no property is returned outside the valid range unsignalled
 
@@ -161,6 +162,29 @@ theorem C06_estimate_inside_value {cs : List (Incomplete × Rat)} {e : Estimate}
   · unfold Estimate.CpoR; rw [hcs]
     exact sumEval_value _ _ _ _ (fun c hc => by obtain ⟨v, hv⟩ := (key c hc).1 (hcp c hc); exact ⟨v, by rw [hv]⟩)
   · exact gibbs_value (s := fun _ => e.SoR T) (vH (fun c hc => (hb c hc).1)) (vS (fun c hc => (hb c hc).2))
+
+/-- **Table obligation** (regenerated from the loaded libraries on every run): every group of every shipped library
+declares a range with positive lower end that contains its reference temperature and its tabulated span — the
+hypotheses `0 < lo` / "declares a range" of T4 hold for all shipped data, and the constructor guards pass. -/
+theorem C06_tab_shipped_ranges : PGA.Gen.ThermoRanges.rows.all RangeRow.ok = true := by decide +kernel
+
+theorem C06_tab_shipped_ranges_spec : ∀ r ∈ PGA.Gen.ThermoRanges.rows, ∃ lo hi, r.range = some (lo, hi) ∧
+    0 < lo.toRat ∧ lo.toRat ≤ r.tref.toRat ∧ r.tref.toRat ≤ hi.toRat ∧
+    ∀ mn mx, r.table = some (mn, mx) → lo.toRat ≤ mn.toRat ∧ mx.toRat ≤ hi.toRat := by
+  intro r hr
+  have h := List.all_eq_true.mp C06_tab_shipped_ranges r hr
+  unfold RangeRow.ok at h
+  cases hrr : r.range with
+  | none => rw [hrr] at h; cases h
+  | some p =>
+    obtain ⟨lo, hi⟩ := p
+    rw [hrr] at h
+    simp only [Bool.and_eq_true, decide_eq_true_eq] at h
+    refine ⟨lo, hi, rfl, h.1.1.1.1, h.1.1.2, h.1.2, fun mn mx ht => ?_⟩
+    have h2 := h.2
+    rw [ht] at h2
+    simp only [Bool.and_eq_true, decide_eq_true_eq] at h2
+    exact ⟨h2.1.1, h2.2⟩
 
 /-! ### non-vacuity -/
 
